@@ -290,7 +290,12 @@ def run_standins(res: Result, contracts, mods, tier):
                 # instead of returning the right answer.  Anything raised in /verif itself is a fault of the checker.
                 tb = traceback.extract_tb(ex.__traceback__)
                 repo = os.path.realpath(api.REPO) + os.sep
-                inner = tb[-1] if tb else None
+                # (frames of third-party libraries at the end of the stack are skipped: numpy raising on a NaN probability that the code under
+                #  test handed to it is raised "inside" that code; the deepest frame that belongs to /repo or to /verif decides)
+                verif_root = os.path.realpath(VERIF) + os.sep
+                blame_caller = type(ex).__name__ == "InvalidDistribution"  # the scripted random source refusing what numpy would refuse
+                inner = next((fr for fr in reversed(tb) if os.path.realpath(fr.filename).startswith((repo, verif_root))
+                              and not (blame_caller and fr.filename.endswith("scripted_rng.py"))), None)
                 in_repo = inner is not None and os.path.realpath(inner.filename).startswith(repo)
                 if not in_repo:
                     res.errors.append(f"stand-in {modname}.{f.__name__} crashed: {traceback.format_exc()[-600:]}")
